@@ -390,6 +390,46 @@ func checkC13Text(c TextCase, r *rec.Rec) error {
 var hostilePointers = []string{"", "/", "//", "/-", "/-1", "/-2", "/01", "/1e3", "/1.5", "/~", "/~2", "/~01", "a", "/a/-/b", "/0/-", "/-/0", "/9223372036854775807", "/18446744073709551616", "/999999999999999999999", "/ ", "/a b", "/\u00e9", "/0/0/0/0"}
 
 func genC13Patch(t *rapid.T) TextCase {
+	if gen.Chance(t, "fromRendered", 50) {
+		// jd's own rendering of a real diff with a few ops damaged: most of
+		// the document stays inside the subset the reader accepts
+		a := gen.Doc(t, gen.Profile{ArrayBias: 60, MaxArr: 6})
+		b := gen.EditN(t, a, gen.Profile{ArrayBias: 60, MaxArr: 6}, 1, 3)
+		var ptext string
+		jdx.Guard(func() { ptext, _ = jdx.Node(a).Diff(jdx.Node(b)).RenderPatch() })
+		pv, err := val.Parse(ptext)
+		ops, ok := pv.([]val.V)
+		if err == nil && ok && len(ops) > 0 {
+			for k := gen.Int(t, "nDamage", 0, 2); k > 0; k-- {
+				op, _ := ops[gen.Int(t, "which", 0, len(ops)-1)].(map[string]val.V)
+				if op == nil {
+					continue
+				}
+				switch gen.Int(t, "opDamage", 0, 5) {
+				case 0:
+					op["path"] = gen.Pick(t, "hp", hostilePointers)
+				case 1:
+					ps, _ := op["path"].(string)
+					op["path"] = ps + gen.Pick(t, "suffix", []string{"/-", "/0", "/-1", "/99", "/x", "/", "/1e3"})
+				case 2:
+					ps, _ := op["path"].(string)
+					prefix, _ := lastToken(ps)
+					op["path"] = prefix + "/" + gen.Pick(t, "badIdx", []string{"-1", "-2", "99", "4294967296", "01", "-", "1.5"})
+				case 3:
+					op["value"] = freshScalar(t)
+				case 4:
+					delete(op, "value")
+				default:
+					op["op"] = gen.Pick(t, "opName", []string{"add", "remove", "test", "replace"})
+				}
+			}
+			target := a
+			if gen.Chance(t, "otherTarget", 40) {
+				target = gen.Edit(t, a, gen.Profile{ArrayBias: 60})
+			}
+			return TextCase{Kind: "patch", Text: val.JSON(ops), Target: val.JSON(target)}
+		}
+	}
 	target := gen.Doc(t, gen.Profile{ArrayBias: 55, MaxArr: 5})
 	paths := allPaths(target)
 	ptr := func() string {
